@@ -42,6 +42,9 @@ pub struct S {
     /// every parent's stopped() takes a scheduling round (children must outlive it), and the
     /// root says goodbye from it: a last broadcast (type, id) issued in stopped()
     pub slow_stop: Option<(u8, u32)>,
+    /// every child runs timers of its own (an interval_with and an interval, period 3): they
+    /// must not hold the child once its parent has let go of it
+    pub child_timers: bool,
 }
 
 const PANIC_MSG: u32 = 700;
@@ -91,6 +94,10 @@ impl Scene for S {
                     Reg::Add => Action::AddChild { key },
                     Reg::Ty(ty) => Action::RegisterChild { key, ty },
                 });
+            }
+            if self.child_timers && n.parent.is_some() {
+                actions.push(Action::IntervalWith { timer: 8, period: 3 });
+                actions.push(Action::Interval { timer: 9, period: 3 });
             }
             crate::world::W.with(|w| w.borrow_mut().roles[n.role as usize].started_actions = actions);
             let cfg = SpawnCfg {
@@ -183,6 +190,20 @@ impl Scene for S {
                         detail: format!("child {} began stopped() at {se}, its parent {p} ended at {p_end:?}", n.role),
                     });
                 }
+                // a child that runs timers is released as promptly as any other: in the virtual
+                // instant in which its parent ends, not at its next tick
+                if self.child_timers && !n.outside {
+                    if let Some(pe) = p_end {
+                        crate::check::oblige("child-with-timers-released-at-once");
+                        if t.log[se].time != t.log[pe].time {
+                            out.push(Violation {
+                                clause: "child-released-and-stops",
+                                key: format!("{pid}/child-with-timers-released-late/cause={ck}"),
+                                detail: format!("child {} (running an interval_with and an interval) began stopped() at t={}, its parent {p} had ended at t={}", n.role, t.log[se].time, t.log[pe].time),
+                            });
+                        }
+                    }
+                }
                 if n.outside {
                     if let Some(od) = outside_drop(n.role) {
                         if se < od {
@@ -238,7 +259,10 @@ impl Scene for S {
         // broadcasts: exactly once to each child registered under the type, to nobody else
         // (the goodbye broadcast counts from the root's completed stopped())
         let goodbye = self.slow_stop.filter(|_| stopped_exit(0).is_some());
-        for (ty, id) in self.bcasts.iter().chain(goodbye.iter()) {
+        // (send_to_children is C16's own subject: a scene borrowed by another property only
+        // reports the lifetime clauses)
+        let none: Vec<(u8, u32)> = vec![];
+        for (ty, id) in (if pid == "C16" { &self.bcasts } else { &none }).iter().chain(goodbye.iter()) {
             let delivered_by_root = an.exit_of_msg(0, *id).is_some() || goodbye == Some((*ty, *id));
             for n in self.nodes.iter().filter(|n| n.parent.is_some()) {
                 let got = an.enters.iter().filter(|e| e.a == n.role && e.cb == (Cb::Bcast { ty: *ty, id: *id })).count();
@@ -347,7 +371,7 @@ fn base_cases(tier: Tier) -> Vec<Case> {
                         desc: format!("children tree={} cause={:?} bcasts={:?} mailbox={}", tree_name(tree), cause, bc, mb.name()),
                         exec: ExecCfg { horizon: 30, cancel: if let Cause::Cancel(j) = cause { Some((root_spawn_index(tree), j)) } else { None }, ..ExecCfg::default() },
                         bound: if tree.len() >= 4 { Some(if tier == Tier::Quick { 3 } else { 5 }) } else if big { Some(if tier == Tier::Quick { 4 } else { 7 }) } else { None },
-                        scene: Box::new(S { nodes: tree.clone(), cause, bcasts: bc.clone(), mailbox: mb, pid: "C16", restart_root: false, slow_stop: None }),
+                        scene: Box::new(S { nodes: tree.clone(), cause, bcasts: bc.clone(), mailbox: mb, pid: "C16", restart_root: false, slow_stop: None, child_timers: false }),
                     });
                     // parents whose stopped() takes a while and says goodbye to the children
                     if matches!(cause, Cause::StopClient | Cause::LastDrop) && bc.len() <= 1 {
@@ -355,7 +379,16 @@ fn base_cases(tier: Tier) -> Vec<Case> {
                             desc: format!("children [slow stopped() with a goodbye broadcast] tree={} cause={:?} bcasts={:?} mailbox={}", tree_name(tree), cause, bc, mb.name()),
                             exec: ExecCfg { horizon: 30, ..ExecCfg::default() },
                             bound: if tree.len() >= 4 { Some(if tier == Tier::Quick { 3 } else { 5 }) } else if big { Some(if tier == Tier::Quick { 4 } else { 7 }) } else { None },
-                            scene: Box::new(S { nodes: tree.clone(), cause, bcasts: bc.clone(), mailbox: mb, pid: "C16", restart_root: false, slow_stop: Some((1, 650)) }),
+                            scene: Box::new(S { nodes: tree.clone(), cause, bcasts: bc.clone(), mailbox: mb, pid: "C16", restart_root: false, slow_stop: Some((1, 650)), child_timers: false }),
+                        });
+                    }
+                    // children that run timers of their own
+                    if matches!(cause, Cause::StopClient | Cause::LastDrop | Cause::HandlerPanic(_)) && bc.is_empty() && tree.len() == 2 {
+                        v.push(Case {
+                            desc: format!("children [children run timers] tree={} cause={:?} bcasts={:?} mailbox={}", tree_name(tree), cause, bc, mb.name()),
+                            exec: ExecCfg { horizon: 5, ..ExecCfg::default() },
+                            bound: Some(if tier == Tier::Quick { 4 } else { 7 }),
+                            scene: Box::new(S { nodes: tree.clone(), cause, bcasts: bc.clone(), mailbox: mb, pid: "C16", restart_root: false, slow_stop: None, child_timers: true }),
                         });
                     }
                     // the same with a restart of the root first
@@ -364,7 +397,7 @@ fn base_cases(tier: Tier) -> Vec<Case> {
                             desc: format!("children [root restarted first] tree={} cause={:?} bcasts={:?} mailbox={}", tree_name(tree), cause, bc, mb.name()),
                             exec: ExecCfg { horizon: 30, ..ExecCfg::default() },
                             bound: if big { Some(if tier == Tier::Quick { 4 } else { 7 }) } else { None },
-                            scene: Box::new(S { nodes: tree.clone(), cause, bcasts: bc.clone(), mailbox: mb, pid: "C16", restart_root: true, slow_stop: None }),
+                            scene: Box::new(S { nodes: tree.clone(), cause, bcasts: bc.clone(), mailbox: mb, pid: "C16", restart_root: true, slow_stop: None, child_timers: false }),
                         });
                     }
                 }
